@@ -234,6 +234,22 @@ def oracle_history(case, rec):
         # first-call one
         suffix = "" if idx == 0 else "_after_other_calls"
         rec.label("op_" + name)
+        if name == "normalize":
+            # the object's own in-place normalisation: every later promise
+            # is about the data as it is now (the object reads the array it
+            # holds: take the values from there)
+            ok, _ = rec.call("normalize_original_data_raises",
+                             s.normalize_original_data)
+            if not ok:
+                return
+            mean = data.mean(axis=1, keepdims=True)
+            std = data.std(axis=1, keepdims=True)
+            want = (data - mean) / np.where(std != 0, std, 1.0)
+            rec.close(np.asarray(s.original_data), want,
+                      "normalize_original_data_values", rtol=1e-12,
+                      atol=1e-12)
+            data = np.array(s.original_data, dtype=np.float64)
+            continue
         if name in seen:
             rec.label("same_method_called_again")
         seen.add(name)
@@ -499,7 +515,7 @@ def twin_params(draw, n):
 
 @st.composite
 def one_op(draw, n, names=None):
-    name = draw(st.sampled_from(names or OPS))
+    name = draw(st.sampled_from(names or (OPS + OPS + ["normalize"])))
     op = {"op": name, "a": draw(st.integers(0, 2 ** 32 - 1)),
           "b": draw(st.integers(0, 2 ** 32 - 1)),
           "iters": draw(st.integers(1, 4))}
